@@ -352,3 +352,45 @@ Example c11_validation_nonvacuous :
      | _ => False
      end.
 Proof. exact validation_nonvacuous. Qed.
+
+(** ** Scope prefixes (findings triage; was known finding C11-K12, repaired)
+
+    These theorems are about [validate] of Model/ParserFiles.v, the transcription of
+    Frugal.validate that the C10 judge replays against ParseFrugal on whole programs. *)
+From FV Require Import Model.ParserStrings Model.ParserAst Model.Parser Model.ParserFiles Proofs.ParserProofs
+     Proofs.DfxValidateProofs.
+
+(** a file that passes validation names every prefix variable once in every scope (so the
+    parameter lists the generators derive from the prefix have no repeated name), and every
+    operation type of every scope is a valid type *)
+Theorem c11_validated_prefix_variables_distinct : forall f incs,
+  ParserFiles.validate f incs = VOk ->
+  forall s, In s (fr_scopes f) ->
+    NoDup (p_vars (sc_prefix s))
+    /\ forall o, In o (sc_ops s) -> valid_type f incs (o_type o) = Some true.
+Proof. exact validate_prefix_variables_distinct. Qed.
+Print Assumptions c11_validated_prefix_variables_distinct.
+
+(** a scope whose prefix repeats a variable is an error of validation: not accepted, not a panic *)
+Theorem c11_dup_prefix_variable_is_error : forall f incs s,
+  has_dup (p_vars (sc_prefix s)) = true -> validate_scope f incs s = VErr.
+Proof. exact validate_scope_dup_rejected. Qed.
+Print Assumptions c11_dup_prefix_variable_is_error.
+
+(** on program text through the PEG parser: "scope Sc prefix a.{zone}.{zone} { op: E }" is rejected
+    by ParseFrugal, the same scope with {zone}.{user} is accepted *)
+Theorem c11_dup_prefix_variable_rejected :
+  is_ferr (parse_program [(main_frugal, dfx_dup_prefix_text)] main_frugal) = true
+  /\ is_fok (parse_program [(main_frugal, dfx_two_vars_text)] main_frugal) = true.
+Proof. exact dup_prefix_variable_rejected. Qed.
+Print Assumptions c11_dup_prefix_variable_rejected.
+
+(** the validation of scopes as it was before the repair ([validate_scopes_pinned]) accepted the
+    scopes of that program, whose prefix variables are [zone; zone] *)
+Theorem c11_dup_prefix_variable_accepted_pinned_refuted :
+  exists f, parse_idl dfx_dup_prefix_text = POk f
+    /\ map (fun s => p_vars (sc_prefix s)) (fr_scopes f) = [[dfx_zone; dfx_zone]]
+    /\ validate_scopes_pinned f [] = VOk
+    /\ validate_scopes f [] = VErr.
+Proof. exact dup_prefix_variable_accepted_pinned. Qed.
+Print Assumptions c11_dup_prefix_variable_accepted_pinned_refuted.
